@@ -61,7 +61,9 @@ class NodeMeta(type):
         if getattr(orig_render, "_djc_wrapped", False):
             return cls
 
-        signature = inspect.signature(orig_render)
+        # NOTE: Do not follow `__wrapped__`: The tag calls `orig_render` itself, so when `render()` is decorated
+        # (`functools.wraps` / `functools.update_wrapper`), the input must match what the decorator accepts.
+        signature = inspect.signature(orig_render, follow_wrapped=False)
 
         # A full signature of `BaseNode.render()` may look like this:
         #
